@@ -129,3 +129,8 @@ def run(ctx):
             ctx.violation(R, key + "|" + tag + ("|" + extra if extra else ""), "%s [%s] — admitted instantiation: %s" % (A.RULE_TEXT[tag], extra, inst), "%s:%s" % (s.fn["file"], s.fn["line"]),
                           {"instantiation": inst})
     ctx.extra["instantiations_checked"] = total
+
+    if ctx.tier == "thorough":
+        # independent cross-check of the solver by the real type checker: compile-fail witnesses with compiling twins
+        import witness
+        witness.check(ctx, "C29")
